@@ -96,24 +96,29 @@ def _strip_comments(src):
 
 
 def _posix_branch(text):
-    """resolve `#ifdef _WIN32 A #else B #endif` to B (`#ifndef _WIN32` to A); other directives are refused"""
-    out, stack = [], []          # stack of booleans: is the current region active
+    """resolve `#ifdef _WIN32 A #else B #endif` to B (`#ifndef _WIN32` to A); conditionals nested inside a dropped region are
+    dropped with it; other directives in the kept text are refused"""
+    out, stack = [], []          # stack of True / False (region active?) or None (a conditional nested in a dropped region)
     for line in text.split("\n"):
         t = line.strip()
         if t.startswith("#"):
             d = t[1:].split()
-            if d[:2] == ["ifdef", "_WIN32"]:
+            active = all(x for x in stack)
+            if d[:1] and d[0] in ("if", "ifdef", "ifndef") and not active:
+                stack.append(None)
+            elif d[:2] == ["ifdef", "_WIN32"]:
                 stack.append(False)
             elif d[:2] == ["ifndef", "_WIN32"]:
                 stack.append(True)
             elif d[:1] == ["else"] and stack:
-                stack[-1] = not stack[-1]
+                if stack[-1] is not None:
+                    stack[-1] = not stack[-1]
             elif d[:1] == ["endif"] and stack:
                 stack.pop()
             else:
                 raise TransErr("unexpected preprocessor line inside the function: " + t)
             continue
-        if all(stack):
+        if all(x for x in stack):
             out.append(line)
     return "\n".join(out)
 
@@ -776,7 +781,7 @@ def translate_cfg(repo=None):
     try:
         for name, rel, head, timed in CFG_FUNCTIONS:
             src = _strip_comments((repo / rel).read_text())
-            what = head.replace("\\b", "").replace("\\s*", "").replace("\\s+", " ").replace("\\", "")
+            what = {"mutex": "Mutex", "signal": "Signal", "monitor": "Monitor"}[name.split("_")[0]] + "::" + name.split("_")[1].replace("waitT", "wait(int64)")
             _, body = _method_body(src, head, what)
             if timed:
                 body = G.strip_deadline(body, what)
@@ -785,12 +790,38 @@ def translate_cfg(repo=None):
             out.append(G.lean_fn(name, f"`{what}` (POSIX branch): `{body}`", tab))
     except (OSError, TransErr, G.CfgErr) as e:
         return False, str(e)
+    try:
+        # Thread: the handle `thread` plays the role of the flag; start(obj, member) = test, functor store, then the body of start
+        th = _strip_comments((repo / "src/Thread.cpp").read_text())
+        _, b_start = _method_body(th, r"\bbool\s+Thread\s*::\s*start\s*\(\s*uint\s*\(\s*\*\s*proc\s*\)\s*\(\s*void\s*\*\s*\)\s*,\s*void\s*\*\s*param\s*\)", "Thread::start(proc, param)")
+        _, b_join = _method_body(th, r"\buint\s+Thread\s*::\s*join\s*\(\s*\)", "Thread::join()")
+        _, b_dtor = _method_body(th, r"\bThread\s*::\s*~\s*Thread\s*\(\s*\)", "Thread::~Thread()")
+        hp = _strip_comments((repo / "include/nstd/Thread.hpp").read_text())
+        _, b_m = _method_body(hp, r"\btemplate\s*<\s*class\s+X\s*>\s*bool\s+start\s*\(\s*X\s*&\s*obj\s*,\s*uint\s*\(\s*X\s*::\s*\*\s*ptr\s*\)\s*\(\s*\)\s*\)", "Thread::start(obj, member)")
+        subs = [(r"typename Call < uint > :: Member < X > :: Func0 func \( obj , ptr \) ; ", ""),
+                (r"this -> func = \* \( Call < uint > :: Member < Thread > :: Func0 \* \) & func ;", "STOREFUNC ;"),
+                (r"return start \( \( uint \( \* \) \( void \* \) \) & proc < typename Call < uint > :: Member < X > :: Func0 > , & this -> func \) ;", b_start)]
+        for rx, rep in subs:
+            if len(re.findall(rx, b_m)) != 1:
+                raise TransErr("Thread::start(obj, member): statement not of the transcribed form: " + rx[:50])
+            b_m = re.sub(rx, lambda _m, rep=rep: rep, b_m)
+        if len(re.findall(r"\bjoin \( \) ;", b_dtor)) != 1:
+            raise TransErr("Thread::~Thread(): no single `join();`")
+        inl = re.sub(r"\breturn [^;]*;", "return ;", b_join)
+        b_dtor = re.sub(r"\bjoin \( \) ;", lambda _m: "{ " + inl + " }", b_dtor)
+        for name, what, body in (("thread_start", "Thread::start(proc, param)", b_start), ("thread_mstart", "Thread::start(obj, member) with start(proc, param) inlined", b_m),
+                                 ("thread_join", "Thread::join()", b_join), ("thread_dtor", "Thread::~Thread() with join() inlined", b_dtor)):
+            tab = G.table(body, what, G.ThreadParser)
+            n += len(tab[1])
+            out.append(G.lean_fn(name, f"`{what}` (POSIX branch; flag = the handle `thread` is set): `{body}`", tab))
+    except (OSError, TransErr, G.CfgErr) as e:
+        return False, str(e)
     out.append("end Nstd.Generated.SyncCfg")
     text = "\n".join(out) + "\n"
     GEN_CFG.parent.mkdir(parents=True, exist_ok=True)
     if not GEN_CFG.exists() or GEN_CFG.read_text() != text:
         GEN_CFG.write_text(text)
-    return True, f"{len(CFG_FUNCTIONS)} member functions, {n} program points"
+    return True, f"{len(CFG_FUNCTIONS) + 4} member functions, {n} program points"
 
 
 def gen(ctx):
